@@ -222,7 +222,9 @@ class Term:
         self.components = []
         for component in components:
             if component not in self.components:
-                self.components.append(component)
+                # Components are mutated when the term is evaluated (type, encoding, data).
+                # Copy them so that no two terms ever share a component.
+                self.components.append(deepcopy(component))
         self.data = None
         self.kind = None
         self.name = ":".join([str(component.name) for component in self.components])
@@ -611,8 +613,10 @@ class GroupSpecificTerm:
     """
 
     def __init__(self, expr, factor):
-        self.expr = expr
-        self.factor = factor
+        # Both sides are mutated when the term is evaluated. Copy them so that group-specific
+        # terms built from the same expression or factor do not share state.
+        self.expr = deepcopy(expr)
+        self.factor = deepcopy(factor)
         self.data = None
         self.groups = None
         self.kind = None
